@@ -22,25 +22,30 @@ Variable has_prot : Z -> bool.
 Variable mf : Z -> V.                 (* any (pure) memoised function *)
 Variable sf : Z -> V.                 (* the sorted field list of a class *)
 Variable pre : bool.                  (* whether the WSDL was built at start-up, before the first request *)
+Variable ftag : Z -> Z.               (* identity of the flat type info each class has while requests run *)
+Variable sc0 : Z -> option (Z * V).   (* what _sortcache holds when the first request arrives *)
 Variable reqs : Z -> req.             (* any assignment of requests to threads *)
+(** lists cached at start-up for the field table a class has NOW are right; lists cached for an
+    earlier field table (append_field / insert_field / customize came later) may be anything *)
+Hypothesis sc0_ok : forall k g x, sc0 k = Some (g, x) -> g = ftag k -> x = sf k.
 
-Notation run := (run V base over1 over2 has_prot mf sf).
-Notation init := (init V base pre).
+Notation run := (run V base over1 over2 has_prot mf sf ftag).
+Notation init := (init V base pre sc0).
 Notation alone := (alone V base over1 over2 has_prot mf sf).
 Notation full := (full V base over1 over2 has_prot).
-Notation step := (step V base over1 over2 has_prot mf sf).
+Notation step := (step V base over1 over2 has_prot mf sf ftag).
 
 (** build_interface_document runs at most once, whatever the schedule *)
 Theorem C12_built_once : forall sched s,
   run Repaired reqs sched (init Repaired reqs) = Some s -> b_gen s <= 1.
-Proof. exact (r_built_once V base over1 over2 has_prot mf sf pre reqs). Qed.
+Proof. exact (r_built_once V base over1 over2 has_prot mf sf pre ftag sc0 reqs sc0_ok). Qed.
 
 (** ... and not at all when it was built at start-up (build_interface_document(url) after the
     transport was created, the usage the class documents): no request builds it again *)
 Theorem C12_prebuilt_never_rebuilt : forall sched s,
   run Repaired reqs sched (init Repaired reqs) = Some s -> pre = true ->
   b_gen s = 1 /\ b_wsdl s = Some 0.
-Proof. exact (r_prebuilt_never_rebuilt V base over1 over2 has_prot mf sf pre reqs). Qed.
+Proof. exact (r_prebuilt_never_rebuilt V base over1 over2 has_prot mf sf pre ftag sc0 reqs sc0_ok). Qed.
 
 (** every finished ?wsdl requester holds the document of the sequential build, and no
     other document is ever stored in the transport or the builder *)
@@ -48,32 +53,32 @@ Theorem C12_served_whole : forall sched s,
   run Repaired reqs sched (init Repaired reqs) = Some s ->
   (forall t, reqs t = RWsdl -> tpc (thr s t) = Done -> out (thr s t) = Some (PWsdl (Some 0))) /\
   (forall d, app_wsdl s = Some d -> d = 0) /\ (forall d, b_wsdl s = Some d -> d = 0).
-Proof. exact (r_served_whole V base over1 over2 has_prot mf sf pre reqs). Qed.
+Proof. exact (r_served_whole V base over1 over2 has_prot mf sf pre ftag sc0 reqs sc0_ok). Qed.
 
 (** every finished caller holds exactly the response its request gets when processed alone *)
 Theorem C12_no_interference : forall sched s t,
   run Repaired reqs sched (init Repaired reqs) = Some s ->
   tpc (thr s t) = Done -> out (thr s t) = alone (reqs t).
-Proof. exact (r_no_interference V base over1 over2 has_prot mf sf pre reqs). Qed.
+Proof. exact (r_no_interference V base over1 over2 has_prot mf sf pre ftag sc0 reqs sc0_ok). Qed.
 
 (** hence the response does not depend on the interleaving (a solo run is one of them) *)
 Theorem C12_schedule_independent : forall sched1 sched2 s1 s2 t,
   run Repaired reqs sched1 (init Repaired reqs) = Some s1 ->
   run Repaired reqs sched2 (init Repaired reqs) = Some s2 ->
   tpc (thr s1 t) = Done -> tpc (thr s2 t) = Done -> out (thr s1 t) = out (thr s2 t).
-Proof. exact (r_schedule_independent V base over1 over2 has_prot mf sf pre reqs). Qed.
+Proof. exact (r_schedule_independent V base over1 over2 has_prot mf sf pre ftag sc0 reqs sc0_ok). Qed.
 
 (** ... and every caller does finish: a request takes a bounded number of steps of its own,
     whatever the others do (no live-lock; true of both program texts) ... *)
 Theorem C12_steps_bounded : forall v sched s t,
   run v reqs sched (init v reqs) = Some s -> count t sched <= bound (reqs t).
-Proof. exact (steps_bounded V base over1 over2 has_prot mf sf pre reqs). Qed.
+Proof. exact (steps_bounded V base over1 over2 has_prot mf sf pre ftag sc0 reqs). Qed.
 
 (** ... while a request is unfinished some thread can move (no dead-lock) ... *)
 Theorem C12_no_deadlock : forall sched s t,
   run Repaired reqs sched (init Repaired reqs) = Some s ->
   tpc (thr s t) <> Done -> exists u, step Repaired reqs s u <> None.
-Proof. exact (r_no_deadlock V base over1 over2 has_prot mf sf pre reqs). Qed.
+Proof. exact (r_no_deadlock V base over1 over2 has_prot mf sf pre ftag sc0 reqs sc0_ok). Qed.
 
 (** ... so a state in which nobody can move is one in which EVERY caller has received
     exactly the response of its request processed alone *)
@@ -81,43 +86,44 @@ Theorem C12_all_served : forall sched s,
   run Repaired reqs sched (init Repaired reqs) = Some s ->
   (forall u, step Repaired reqs s u = None) ->
   forall t, tpc (thr s t) = Done /\ out (thr s t) = alone (reqs t).
-Proof. exact (quiescent_all_served V base over1 over2 has_prot mf sf pre reqs). Qed.
+Proof. exact (quiescent_all_served V base over1 over2 has_prot mf sf pre ftag sc0 reqs sc0_ok). Qed.
 
 (** memoize: the table only ever holds f(key), every call returns f(key) *)
 Theorem C12_memo_transparent : forall sched s,
   run Repaired reqs sched (init Repaired reqs) = Some s ->
   (forall k x, memo s k = Some x -> x = mf k) /\
   (forall t ks, reqs t = RMemo ks -> tpc (thr s t) = Done -> out (thr s t) = Some (PVals (map mf ks))).
-Proof. exact (r_memo_transparent V base over1 over2 has_prot mf sf pre reqs). Qed.
+Proof. exact (r_memo_transparent V base over1 over2 has_prot mf sf pre ftag sc0 reqs sc0_ok). Qed.
 
 (** _attrcache: every published dictionary is complete, every caller sees the complete attributes *)
 Theorem C12_attrs_transparent : forall sched s,
   run Repaired reqs sched (init Repaired reqs) = Some s ->
   (forall k r, cache s k = Some r -> heap s r = full k) /\
   (forall t ks, reqs t = RAttrs ks -> tpc (thr s t) = Done -> out (thr s t) = Some (PVals (map full ks))).
-Proof. exact (r_attrs_transparent V base over1 over2 has_prot mf sf pre reqs). Qed.
+Proof. exact (r_attrs_transparent V base over1 over2 has_prot mf sf pre ftag sc0 reqs sc0_ok). Qed.
 
-(** _sortcache (and any lock-free fill of a value computed from frozen data): only ever
-    holds the sequential value, every caller gets it *)
+(** _sortcache: an entry computed from the field table the class has now is the sequential
+    value, an entry computed from an earlier one is never returned, every caller gets the
+    sequential value *)
 Theorem C12_sort_transparent : forall sched s,
   run Repaired reqs sched (init Repaired reqs) = Some s ->
-  (forall k x, scache s k = Some x -> x = sf k) /\
+  (forall k g x, scache s k = Some (g, x) -> g = ftag k -> x = sf k) /\
   (forall t ks, reqs t = RSort ks -> tpc (thr s t) = Done -> out (thr s t) = Some (PVals (map sf ks))).
-Proof. exact (r_sort_transparent V base over1 over2 has_prot mf sf pre reqs). Qed.
+Proof. exact (r_sort_transparent V base over1 over2 has_prot mf sf pre ftag sc0 reqs sc0_ok). Qed.
 
 (** schema validation: a rejected request's fault carries its own error text *)
 Theorem C12_errlog_isolated : forall sched s t ok e,
   run Repaired reqs sched (init Repaired reqs) = Some s ->
   reqs t = RValidate ok e -> tpc (thr s t) = Done ->
   out (thr s t) = Some (if ok then PValid else PFault (Some e)).
-Proof. exact (r_errlog_isolated V base over1 over2 has_prot mf sf pre reqs). Qed.
+Proof. exact (r_errlog_isolated V base over1 over2 has_prot mf sf pre ftag sc0 reqs sc0_ok). Qed.
 
 (** ... also when validate() itself raises (XMLSchemaValidateError, e.g. an entity reference left
     in the tree): the lock is released and the fault carries the text of that exception *)
 Theorem C12_validator_error_isolated : forall sched s t e,
   run Repaired reqs sched (init Repaired reqs) = Some s ->
   reqs t = RValidateX e -> tpc (thr s t) = Done -> out (thr s t) = Some (PFault (Some e)).
-Proof. exact (r_validator_error_isolated V base over1 over2 has_prot mf sf pre reqs). Qed.
+Proof. exact (r_validator_error_isolated V base over1 over2 has_prot mf sf pre ftag sc0 reqs sc0_ok). Qed.
 
 (** the three locks exclude: two threads inside the same critical section are one thread *)
 Theorem C12_mutual_exclusion : forall sched s t u,
@@ -125,7 +131,7 @@ Theorem C12_mutual_exclusion : forall sched s t u,
   (in_wcrit (tpc (thr s t)) = true -> in_wcrit (tpc (thr s u)) = true -> t = u) /\
   (in_vcrit (tpc (thr s t)) = true -> in_vcrit (tpc (thr s u)) = true -> t = u) /\
   (in_mcrit (tpc (thr s t)) = true -> in_mcrit (tpc (thr s u)) = true -> t = u).
-Proof. exact (r_mutual_exclusion V base over1 over2 has_prot mf sf pre reqs). Qed.
+Proof. exact (r_mutual_exclusion V base over1 over2 has_prot mf sf pre ftag sc0 reqs sc0_ok). Qed.
 
 End C12.
 
@@ -215,42 +221,69 @@ Definition ex_reqs (t : Z) : req :=
   else if t =? 5 then RSort [4; 4] else if t =? 6 then RValidateX 9 else RIdle.
 Definition ex_sched : list Z :=
   [0;1;2;3;4;5;0;1;2;3;4;5;0;2;2;3;4;5;0;3;3;3;4;0;3;3;4;4;0;4;0;0;0;1;1;1;6;6;6].
+Definition is_done (s : state Z) (t : Z) : bool := match tpc (thr s t) with Done => true | _ => false end.
+Definition got (s : state Z) (t : Z) (r : resp Z) : bool := optresp_eqb (out (thr s t)) (Some r).
+(** (stated as boolean tests on the state the schedule leads to, so that the kernel re-checks them
+    with the virtual machine) *)
 Example C12_ex_all_finish :
-  exists s, crun Repaired ex_reqs ex_sched (cinit false Repaired ex_reqs) = Some s /\
-    forallb (fun t => match tpc (thr s t) with Done => true | _ => false end) [0;1;2;3;4;5;6] = true /\
-    b_gen s = 1 /\ out (thr s 1) = Some (PWsdl (Some 0)) /\ out (thr s 2) = Some (PFault (Some 5)) /\
-    out (thr s 3) = Some (PVals [13; 13; 20]) /\ out (thr s 4) = Some (PVals [24; 24]) /\
-    out (thr s 5) = Some (PVals [404; 404]) /\ out (thr s 6) = Some (PFault (Some 9)).
-Proof. eexists. vm_compute. repeat split. Qed.
+  match crun Repaired ex_reqs ex_sched (cinit false Repaired ex_reqs) with
+  | Some s => forallb (is_done s) [0;1;2;3;4;5;6] && (b_gen s =? 1) &&
+              got s 1 (PWsdl (Some 0)) && got s 2 (PFault (Some 5)) && got s 3 (PVals [13; 13; 20]) &&
+              got s 4 (PVals [24; 24]) && got s 5 (PVals [454; 454]) && got s 6 (PFault (Some 9))
+  | None => false
+  end = true.
+Proof. vm_compute. reflexivity. Qed.
 (** the same state is quiescent (hypothesis of C12_all_served), and the schedule uses the
     step budget of C12_steps_bounded without exhausting it *)
 Example C12_ex_quiescent :
-  exists s, crun Repaired ex_reqs ex_sched (cinit false Repaired ex_reqs) = Some s /\
-    forallb (fun u => match cstep Repaired ex_reqs s u with None => true | Some _ => false end) [0;1;2;3;4;5;6;7] = true /\
-    count 3 ex_sched = 8 /\ bound (ex_reqs 3) = 27.
-Proof. eexists. vm_compute. repeat split. Qed.
+  match crun Repaired ex_reqs ex_sched (cinit false Repaired ex_reqs) with
+  | Some s => forallb (fun u => match cstep Repaired ex_reqs s u with None => true | Some _ => false end)
+                      [0;1;2;3;4;5;6;7] && (count 3 ex_sched =? 8) && (bound (ex_reqs 3) =? 27)
+  | None => false
+  end = true.
+Proof. vm_compute. reflexivity. Qed.
 (** a blocked thread exists in a reachable state (the locks do something; hypothesis of
     C12_no_deadlock / C12_mutual_exclusion: thread 0 is inside the critical section) *)
 Example C12_ex_blocks :
-  exists s, crun Repaired ex_reqs [0;0;0;1;1] (cinit false Repaired ex_reqs) = Some s /\
-    cstep Repaired ex_reqs s 1 = None /\ tpc (thr s 1) = W_acq /\ in_wcrit (tpc (thr s 0)) = true.
-Proof. eexists. vm_compute. repeat split. Qed.
+  match crun Repaired ex_reqs [0;0;0;1;1] (cinit false Repaired ex_reqs) with
+  | Some s => match cstep Repaired ex_reqs s 1 with None => true | Some _ => false end &&
+              match tpc (thr s 1) with W_acq => true | _ => false end && in_wcrit (tpc (thr s 0))
+  | None => false
+  end = true.
+Proof. vm_compute. reflexivity. Qed.
 (** the prebuilt case is not vacuous: two requesters, no build, both get the start-up document *)
 Example C12_ex_prebuilt :
-  exists s, crun Repaired (fun _ => RWsdl) [0;0;1;1] (cinit true Repaired (fun _ => RWsdl)) = Some s /\
-    b_gen s = 1 /\ out (thr s 0) = Some (PWsdl (Some 0)) /\ out (thr s 1) = Some (PWsdl (Some 0)).
-Proof. eexists. vm_compute. repeat split. Qed.
+  match crun Repaired (fun _ => RWsdl) [0;0;1;1] (cinit true Repaired (fun _ => RWsdl)) with
+  | Some s => (b_gen s =? 1) && got s 0 (PWsdl (Some 0)) && got s 1 (PWsdl (Some 0))
+  | None => false
+  end = true.
+Proof. vm_compute. reflexivity. Qed.
+(** a list cached at start-up for an earlier field table is not returned: class 4 (stale entry
+    404 in the integer instance, which meets the hypothesis sc0_ok) is sorted again *)
+Example C12_ex_stale_sort :
+  (forall k g x, csc0 k = Some (g, x) -> g = cftag k -> x = csf k) /\
+  match crun Repaired (fun t => if t =? 0 then RSort [4] else RIdle) [0;0]
+             (cinit false Repaired (fun t => if t =? 0 then RSort [4] else RIdle)) with
+  | Some s => got s 0 (PVals [454]) && negb (csf 4 =? 404)
+  | None => false
+  end = true.
+Proof.
+  split.
+  - intros k g x H Hg. unfold csc0 in H. destruct (cstale k); [|discriminate].
+    inversion H; subst. discriminate.
+  - vm_compute. reflexivity.
+Qed.
 (** the fallback refutation bites: a subclass with one more member gets the parent's list *)
 Example C12_ex_fallback :
   calls Z (fun k => 10 * k) (fun k => if k =? 2 then Some 1 else None) (fun _ => None) [1; 2] = [10; 10] /\
   calls Z (fun k => 10 * k) (fun _ => None) (fun _ => None) [1; 2] = [10; 20] /\
   (length state_writers_expected = 60)%nat.
 Proof. vm_compute. repeat split. Qed.
-(** the text theorems are not about an empty table: 17 paths, and the pinned skeletons are
+(** the text theorems are not about an empty table: 19 paths, and the pinned skeletons are
     rejected by the same test (and accepted by the pinned model) *)
 Example C12_ex_text :
   (length (wsdl_paths Repaired) + length (attrs_paths Repaired) + length (validate_paths Repaired)
-   + length memo_paths + length sort_paths + length (wsdl_pre_paths Repaired) = 17)%nat /\
+   + length memo_paths + length sort_paths + length (wsdl_pre_paths Repaired) = 19)%nat /\
   paths_ok Repaired (text_wsdl Pinned) g_attrs g_validate g_memo g_sort = false /\
   paths_ok Repaired g_wsdl (text_attrs Pinned) g_validate g_memo g_sort = false /\
   paths_ok Repaired g_wsdl g_attrs (text_validate Pinned) g_memo g_sort = false /\
